@@ -48,6 +48,19 @@ let bits_of_pos p =
 let str_of_z = function Z0 -> "0" | Zpos p -> bits_of_pos p | Zneg p -> "-" ^ bits_of_pos p
 let str_of_q q = str_of_z q.qnum ^ "/" ^ bits_of_pos q.qden
 
+(* ---- libvpsc LineSegment::Intersect / Rectangle::lineIntersections (same conventions as harness/c16_geom.cpp) *)
+let m77pt = pt_of (-77) (-77)
+let seg_of a b = { lbegin = a; lend = b }
+(* (result char, code, point): '0' + code, + 4 if the out-parameter changed although the result is not INTERSECTING *)
+let ls_intersect a b c d =
+  let (code, p) = spec_LineSegment_Intersect (seg_of a b) (seg_of c d) m77pt in
+  let r = int_of_z code in
+  (Char.chr (48 + r + (if r <> 3 && p <> m77pt then 4 else 0)), r, p)
+let ri_char r =
+  Char.chr (65 + (if r.ri_intersects then 1 else 0) + (if r.ri_top then 2 else 0) + (if r.ri_bottom then 4 else 0)
+            + (if r.ri_left then 8 else 0) + (if r.ri_right then 16 else 0))
+let line_intersections x0 x1 y0 y1 l = spec_lineIntersections x0 x1 y0 y1 l ri0
+
 (* positions without a spec decider print '?' (numeric fields '?') and are skipped by the comparison *)
 let rand_mode () =
   let m77 = q_of_int (-77) in
@@ -70,11 +83,44 @@ let rand_mode () =
     let poly = [a; b; c; d] in
     List.iter (fun cb -> List.iter (fun p -> add (bc (spec_inPoly poly p cb))) [a; q; d]) [false; true];
     List.iter (fun p -> add (bc (spec_inPolyGen poly p))) [a; q; d];
+    let (l1, r1, p1) = ls_intersect a b c d in
+    let (l2, _, _) = ls_intersect c d a b in
+    add l1; add l2;
     print_string (Buffer.contents o);
     (* numeric fields as exact rationals *)
     if int_of_z sc = 1 then Printf.printf " %s %s" (str_of_q sx) (str_of_q sy) else print_string " - -";
     if int_of_z rc = 1 then Printf.printf " %s %s" (str_of_q rx) (str_of_q ry) else print_string " - -";
-    Printf.printf " %s\n" (str_of_q (spec_manhattanDist a b)))
+    Printf.printf " %s" (str_of_q (spec_manhattanDist a b));
+    if r1 = 3 then Printf.printf " %s %s\n" (str_of_q p1.px) (str_of_q p1.py) else print_string " - -\n")
+
+let lineseg_sections g pts n it4 add =
+    it4 (fun a b c d -> let (ch, _, _) = ls_intersect a b c d in add ch);
+    flush_section "LineSegment_Intersect";
+    print_string "## LineSegment_Intersect_xy 0\n";
+    for i = 0 to n-1 do for j = 0 to n-1 do for k = 0 to n-1 do for l = 0 to n-1 do
+      let (_, r, p) = ls_intersect pts.(i) pts.(j) pts.(k) pts.(l) in
+      if r = 3 then Printf.printf "%d %d %d %d %.17g %.17g\n" i j k l (float_of_bigq p.px) (float_of_bigq p.py)
+    done done done done;
+    let gr = if Array.length Sys.argv > 3 then int_of_string Sys.argv.(3) else if g <= 4 then 4 else 5 in
+    let lp = Array.init ((gr + 2) * (gr + 2)) (fun i -> pt_of (i / (gr + 2) - 1) (i mod (gr + 2) - 1)) in
+    let nl = Array.length lp in
+    let xy = Buffer.create (1 lsl 20) in
+    let ridx = ref 0 in
+    for x0 = 0 to gr-1 do for x1 = x0 to gr-1 do for y0 = 0 to gr-1 do for y1 = y0 to gr-1 do
+      let qx0 = q_of_int x0 and qx1 = q_of_int x1 and qy0 = q_of_int y0 and qy1 = q_of_int y1 in
+      for i = 0 to nl-1 do for j = 0 to nl-1 do
+        let r = line_intersections qx0 qx1 qy0 qy1 (seg_of lp.(i) lp.(j)) in
+        add (ri_char r);
+        let side fl nm p = if fl then Buffer.add_string xy
+          (Printf.sprintf "%d %d %d %s %.17g %.17g\n" !ridx i j nm (float_of_bigq p.px) (float_of_bigq p.py)) in
+        side r.ri_top "T" r.ri_topP; side r.ri_bottom "B" r.ri_bottomP;
+        side r.ri_left "L" r.ri_leftP; side r.ri_right "R" r.ri_rightP
+      done done;
+      incr ridx
+    done done done done;
+    flush_section "lineIntersections";
+    print_string "## lineIntersections_xy 0\n";
+    print_string (Buffer.contents xy)
 
 let grid_mode () =
   let g = int_of_string Sys.argv.(1) and gp = int_of_string Sys.argv.(2) in
@@ -168,6 +214,7 @@ let grid_mode () =
              | Some (x0, x1, y0, y1) -> bc (rect_contains x0 x1 y0 y1 pq)
              | None -> if List.mem pq poly then '1' else '?') done
     done done done done;
-    flush_section "inPolyGen4_region"
+    flush_section "inPolyGen4_region";
+    lineseg_sections g pts n it4 add
 
 let () = if Array.length Sys.argv > 1 && Sys.argv.(1) = "rand" then rand_mode () else grid_mode ()
